@@ -31,7 +31,7 @@ CONSTANTS Quota, Parent, Max, W, Grouped, Group, Gran, Costs, Steps, MaxNow,
                       \*   mode "conc": each id names one transaction - the gateway's ids are unique)
           N,          \* number of request slots (mode "conc")
           Mode,       \* "seq" | "conc"
-          Variant     \* "none" | "strict_gt" | "no_delete" | "no_parent" | "no_error" | "no_group" | "racy_inc"
+          Variant     \* "none" | "strict_gt" | "no_delete" | "no_parent" | "no_error" | "no_group" | "racy_inc" | "allow_unknown"
                       \* | "no_trunc" (benign: window start stored with full precision)
 
 INSTANCE FixedWindowOps
